@@ -202,16 +202,36 @@ def receiver(R, ctx):
             x = c["args"][2]
             while x.get("k") in ("Use", "Scope", "NeverToAny") and "e" in x:
                 x = x["e"]
-            srcs = [x] + list(fa.source_calls(x))
-            via_prefix = False
-            for q in srcs:
+            def leaves(e, depth=0):
+                while e.get("k") in ("Use", "Scope", "NeverToAny", "Borrow", "Deref", "Coerce") and "e" in e:
+                    e = e["e"]
+                k = e.get("k")
+                if depth > 12:
+                    return [e]
+                if k == "Block" and "tail" in e:
+                    return leaves(e["tail"], depth + 1)
+                if k == "If" and "else" in e:
+                    return leaves(e["then"], depth + 1) + leaves(e["else"], depth + 1)
+                if k == "Match":
+                    return [l for a in e["arms"] for l in leaves(a["body"], depth + 1)]
+                if k == "Var":
+                    out = []
+                    for src, pre in fa.env.get(e["var"], []):
+                        if pre == () and not str(src.get("k", "#")).startswith("#"):
+                            out += leaves(src, depth + 1)
+                        else:
+                            out.append(e)
+                    return out or [e]
+                return [e]
+
+            def wrapped(q):
                 if q.get("k") == "Call" and q.get("fname") in ("from", "into") and q["args"]:
                     at = lib.types[lib.strip_refs(q["args"][0]["t"])].get("adt")
                     rt = lib.types[lib.strip_refs(q["t"])].get("adt")
-                    if at == "nodes::expressions::prefix::Prefix" and rt == EXPR:
-                        via_prefix = True
-                if q.get("k") == "Call" and q.get("fname") == "in_parentheses":
-                    via_prefix = True
+                    return at == "nodes::expressions::prefix::Prefix" and rt == EXPR
+                return q.get("k") == "Call" and q.get("fname") == "in_parentheses"
+            # every value the inserted argument can take keeps the parentheses (flows Prefix -> Expression)
+            via_prefix = all(wrapped(q) for q in leaves(x))
             for v in sorted(MULTI & accepted) or ["(none accepted)"]:
                 ok = via_prefix or v == "(none accepted)"
                 R.ob(rid, "first-argument-single-valued|%s" % v, ok, ctx.where(fn, c.get("ln")),
